@@ -22,6 +22,7 @@ def run(ctx):
     CM.finding_replay(ctx, "C04")
     J.lateness_sweep(ctx, "C04", list(range(30, 36)) if ctx.quick else list(range(1, 45)), starts=(None, 65520))
     J.gap_sweep(ctx, "C04", list(range(30, 37)) if ctx.quick else list(range(20, 70)))
+    J.after_disconnect(ctx, "C04")
     if not ctx.quick:
         J.schedule_sweep(ctx, "C04", True)
     J.run_scenarios(ctx, "C04", scenarios(ctx))
